@@ -43,7 +43,8 @@ Proof. exact c01_goal_restricted_sym. Qed.
 (* "no matter what came before": both hypotheses hold after EVERY finite history over the alphabet of
    C01 — edits and reverts of sources, rules-file edits (any text, accepted or rejected), builds, goal
    builds, cleans, goal cleans, tampered and deleted targets, deleted cache entries, deleted ruler directory
-   or parts of it, failed builds included — provided commands were deterministic in every build of the
+   or parts of it, an older copy moved (back) into a path with its old modification time (OMove), failed
+   builds included — provided commands were deterministic in every build of the
    history (det_history; only a user planting decodable state files is excluded) *)
 Theorem C01_invariants_after_every_history : forall t0 (ops : list (op sym)),
   0 < t0 -> det_history_sym (init_world Fine t0) ops ->
